@@ -81,7 +81,8 @@ def _locked(fn):
             fcntl.flock(lk, fcntl.LOCK_UN)
 
 
-AUDIT_TMPL = """import {module}
+AUDIT_TMPL = """import Lean.Elab.Command
+import {module}
 open Lean in
 run_cmd do
   let env ← getEnv
@@ -175,22 +176,36 @@ def load_known():
     return res
 
 
+def jsonable(o):
+    """make anything a property module hands us JSON-serialisable (tuple keys, sets, floats incl. inf/nan)"""
+    if isinstance(o, dict):
+        return {(k if isinstance(k, (str, int, float, bool)) or k is None else str(k)): jsonable(v) for k, v in o.items()}
+    if isinstance(o, (list, tuple, set, frozenset)):
+        return [jsonable(x) for x in o]
+    if isinstance(o, float):
+        return o if o == o and abs(o) != float("inf") else repr(o)
+    if isinstance(o, (str, int, bool)) or o is None:
+        return o
+    return str(o)
+
+
 def write_evidence(pid, ev):
     os.makedirs(os.path.join(VERIF, "evidence"), exist_ok=True)
     p = os.path.join(VERIF, "evidence", f"{pid}.json")
     tmp = p + f".{os.getpid()}.tmp"
     with open(tmp, "w") as f:
-        json.dump(ev, f, indent=1, default=str)
+        json.dump(jsonable(ev), f, indent=1)
     os.replace(tmp, p)
 
 
 def write_replay(pid, seed, obj):
     d = os.path.join(VERIF, "replays")
     os.makedirs(d, exist_ok=True)
-    h = hashlib.sha1(json.dumps(obj, sort_keys=True, default=str).encode()).hexdigest()[:10]
+    obj = jsonable(obj)
+    h = hashlib.sha1(json.dumps(obj, sort_keys=True).encode()).hexdigest()[:10]
     p = os.path.join(d, f"{pid}_{seed}_{h}.json")
     with open(p, "w") as f:
-        json.dump(obj, f, indent=1, default=str)
+        json.dump(obj, f, indent=1)
     return p
 
 
